@@ -30,7 +30,7 @@ def _proj_el(el2):
     return {"jds": [[int(x) for x in j] for j in el2.joint_degrees], "rows": rows, "parallel": par}
 
 
-def execute(case):
+def _execute(case):
     import gcmpy
     el = gcmpy.LightWeightEdgeList()
     el.joint_degrees = [tuple(j) for j in case["jds"]]
@@ -76,6 +76,10 @@ def execute(case):
 def _key(tr, v):
     c = tr["case"]
     return "%s/N%d/%s" % (c.get("kind", "?"), len(c["jds"]), v["v"].split(":", 1)[-1])
+
+
+from ..history import with_prior
+execute = with_prior(_execute, _HELD, lambda tr: tr["held_el_before"] != tr["held_el_after"] or tr["held_g_before"] != tr["held_g_after"])
 
 
 def run(chk):
